@@ -1,6 +1,7 @@
 """Semantics of builtins, operators, attribute access and container
 operations on symbolic values.  Everything not covered raises Unsupported."""
 import ast
+import re
 import builtins as _bi
 import inspect
 import math
@@ -138,7 +139,7 @@ def class_candidates(E, oid):
     """Known python classes the object ``oid`` may be an instance of on this
     path, plus True if it may be of a symbolic (generated) class."""
     p = E.path
-    key = ('cands', oid.get_id())
+    key = ('cands', vals.tid(oid))
     if key in p.ghost:
         return p.ghost[key]
     c = E.classes.cls_of(oid)
@@ -171,6 +172,45 @@ def class_candidates(E, oid):
     finally:
         s.pop()
     p.ghost[key] = (out, sym)
+    return out, sym
+
+
+def class_candidates_for(E, oid, name):
+    """Like class_candidates, but classes that resolve ``name`` identically
+    are tested for feasibility together (one query per group)."""
+    p = E.path
+    key = ('cands', vals.tid(oid))
+    if key in p.ghost:
+        return p.ghost[key]
+    gkey = ('candsg', vals.tid(oid), name)
+    if gkey in p.ghost:
+        return p.ghost[gkey]
+    c = E.classes.cls_of(oid)
+    known = [K for K in E.classes.known() if isinstance(K, type)]
+    groups = {}
+    for K in known:
+        st = static_lookup(K, name)
+        k = id(st) if st is not _MISSING else 0
+        if st is not _MISSING and isinstance(st, (int, float, str, bool, type(None), tuple)):
+            k = ('const', repr(st))
+        groups.setdefault(k, []).append(K)
+    out = []
+    for k, ks in groups.items():
+        cond = z3.Or(*[c == E.classes.cid(K) for K in ks])
+        if E.must(z3.Not(cond)):
+            continue
+        if len(ks) > 1:
+            # which members are possible does not matter for resolution; keep those
+            # that are individually feasible only when the group is small
+            if len(ks) <= 6:
+                ks = [K for K in ks if not E.must(c != E.classes.cid(K))]
+        out.extend(ks)
+    sym = not E.must(c <= _I().SYM_CLASS_BASE)
+    if not sym or True:
+        n_known = len(E.classes.by_id)
+        E.assumptions.add('closed world: objects are instances of the classes of the '
+                          'verified modules or of generated classes')
+    p.ghost[gkey] = (out, sym)
     return out, sym
 
 
@@ -280,6 +320,13 @@ def getattr_(E, obj, name, node=None):
     if E.must(V.is_VDatetime(t)):
         return datetime_getattr(E, obj, name, node)
     if E.merge:
+        # specification mode: the attribute exists only on objects
+        with E.assuming(isobj):
+            r = object_getattr(E, obj, name, node)
+        if E.fail_conds is not None:
+            E.fail_conds.append((z3.And(*(E.scope_names + [z3.Not(z3.Or(isobj, iscls, V.is_VDatetime(t)))])), AttributeError, name))
+        if isinstance(r, (I.T, I.C)):
+            return E.ite(isobj, r, I.T(V.VAbsent))
         raise _I().Unsupported('attribute %s of a value of undetermined kind in a specification' % name)
     # unknown kind: fork on object / class / datetime / other
     k = E.path.choose([isobj, iscls, V.is_VDatetime(t),
@@ -308,7 +355,7 @@ def C_wrap(E, r):
 def datetime_getattr(E, obj, name, node):
     I = _I()
     if name == 'tzinfo':
-        f = z3.Function('dt_tzinfo', z3.IntSort(), Val)
+        f = z3.Function('dt_tzinfo', z3.IntSort(), vals.VS)
         return I.T(f(Val.dtid(obj.t)))
     if name in ('strftime', 'replace', 'utcoffset', 'isoformat'):
         return I.SBuiltinMethod(obj, name)
@@ -368,7 +415,11 @@ def object_getattr(E, obj, name, node):
     oid = z3.simplify(Val.oid(t))
     if name == '__class__':
         return type_of(E, obj)
-    cands, sym = class_candidates(E, oid)
+    cands, sym = class_candidates_for(E, oid, name)
+    if E.merge and (sym and cands or len(cands) > 1):
+        r = merged_object_getattr(E, obj, name, node, cands, sym)
+        if r is not None:
+            return r
     if sym:
         hook = getattr(E, 'symbolic_object_getattr', None)
         if hook is None:
@@ -409,6 +460,59 @@ def object_getattr(E, obj, name, node):
     else:
         st, ks = list(groups.values())[0]
     return resolve_static(E, obj, name, st, ks, node)
+
+
+def merged_object_getattr(E, obj, name, node, cands, sym):
+    """Specification mode: the attribute as an ite over the possible classes
+    of the object (failures are recorded guarded by the class condition)."""
+    I = _I()
+    oid = z3.simplify(Val.oid(obj.t))
+    c = E.classes.cls_of(oid)
+    groups = {}
+    for K in cands:
+        st = static_lookup(K, name)
+        key = id(st) if st is not _MISSING else 0
+        if st is not _MISSING and isinstance(st, (int, float, str, bool, type(None), tuple)):
+            key = ('const', repr(st))
+        groups.setdefault(key, (st, []))[1].append(K)
+    alts = []
+    for key, (st, ks) in groups.items():
+        cond = z3.Or(*[c == E.classes.cid(K) for K in ks])
+        with E.assuming(cond):
+            try:
+                v = resolve_static(E, obj, name, st, ks, node)
+            except I.PyRaise as pr:
+                if E.fail_conds is not None:
+                    E.fail_conds.append((z3.And(*(E.scope_names)), pr.exc.cls, name))
+                v = None
+        alts.append((cond, v))
+    if sym:
+        cond = c > I.SYM_CLASS_BASE
+        hook = getattr(E, 'symbolic_object_getattr', None)
+        with E.assuming(cond):
+            try:
+                v = hook(obj, name, node, []) if hook is not None else None
+            except I.PyRaise as pr:
+                if E.fail_conds is not None:
+                    E.fail_conds.append((z3.And(*(E.scope_names)), pr.exc.cls, name))
+                v = None
+            except I.Unsupported:
+                # the attribute of an instance of an unknown generated class is not
+                # determined: the specification is silent there (guarded failure)
+                if E.fail_conds is not None:
+                    E.fail_conds.append((z3.And(*(E.scope_names)), AttributeError, name))
+                v = None
+        alts.append((cond, v))
+    res = None
+    for cond, v in alts:
+        if v is None:
+            continue
+        if not isinstance(v, (I.T, I.C)):
+            return None
+        res = v if res is None else E.ite(cond, v, res)
+    if res is None:
+        return I.T(Val.VAbsent)
+    return res
 
 
 def resolve_static(E, obj, name, st, ks, node):
@@ -600,7 +704,7 @@ def getitem(E, obj, idx, node=None):
         k = E.path.choose([isd, isseq, isstr], ['dict', 'seq', 'str'])
     if k == 0:
         kt = E.lift(idx)
-        E.path.assume(vals.key_axiom(kt))
+        E.axiom(vals.key_axiom(kt))
         r = z3.Select(V.dm(t), vals.KeyId(kt))
         E.fail_if(r == V.VAbsent, KeyError, 'dict key')
         return I.T(r)
@@ -684,23 +788,23 @@ def contains_symbolic(E, cont, item, node):
     isstr = z3.simplify(V.is_VStr(t))
     it = E.lift(item)
     if E.must(isd):
-        E.scoped_assume(vals.key_axiom(it))
+        E.axiom(vals.key_axiom(it))
         return z3.Select(V.dm(t), vals.KeyId(it)) != V.VAbsent
     if E.must(isset):
-        E.scoped_assume(vals.key_axiom(it))
+        E.axiom(vals.key_axiom(it))
         return z3.Select(V.sm(t), vals.KeyId(it))
     ok = z3.simplify(z3.Or(isd, isset, isseq, isstr))
     E.fail_if(z3.Not(ok), TypeError, 'argument of type is not iterable')
     if E.merge:
-        E.path.assume(vals.key_axiom(it)) if E.path is not None else None
+        E.axiom(vals.key_axiom(it))
         return z3.If(isd, z3.Select(V.dm(t), vals.KeyId(it)) != V.VAbsent,
                      z3.If(isset, z3.Select(V.sm(t), vals.KeyId(it)), z3.BoolVal(False)))
     k = E.path.choose([isd, isset, isseq, isstr], ['dict', 'set', 'seq', 'str'])
     if k == 0:
-        E.path.assume(vals.key_axiom(it))
+        E.axiom(vals.key_axiom(it))
         return z3.Select(V.dm(t), vals.KeyId(it)) != V.VAbsent
     if k == 1:
-        E.path.assume(vals.key_axiom(it))
+        E.axiom(vals.key_axiom(it))
         return z3.Select(V.sm(t), vals.KeyId(it))
     if k == 2:
         j = E.path.fresh('j', z3.IntSort())
@@ -782,7 +886,7 @@ def percent_format(E, fmt, rhs, node):
     else:
         t = rhs.t
         ist = z3.simplify(V.is_VTuple(t))
-        if z3.is_false(ist):
+        if z3.is_false(ist) or E.merge or E.must(z3.Not(ist)):
             args = [rhs]
         else:
             # a tuple on the right-hand side is the argument *list*
@@ -844,13 +948,42 @@ def percent_format(E, fmt, rhs, node):
     return opaque_string(E, 'pfmt:' + fmt, terms)
 
 
+def template_pieces(tag):
+    """('pfmt:_%s_value' | 'sfmt:_{}_value') -> ('_', '_value'): literal pieces
+    of a template whose fields are all plain %s / {}; None otherwise."""
+    kind, fmt = tag.split(':', 1)
+    if kind == 'pfmt':
+        if re.search(r'%(?!s)', fmt.replace('%%', '')):
+            return None
+        return tuple(x.replace('%%', '%') for x in re.split(r'%s', fmt))
+    if kind == 'sfmt':
+        if re.search(r'\{[^}]+\}', fmt) or '{{' in fmt or '}}' in fmt:
+            return None
+        return tuple(fmt.split('{}'))
+    return None
+
+
 def opaque_string(E, tag, terms):
-    """Deterministic opaque string: uninterpreted function of the arguments."""
+    """Deterministic opaque string: uninterpreted function of the arguments.
+    Templates made of plain string fields are named after their literal
+    pieces (so '_%s_value' % x and '_{}_value'.format(x) are the same term);
+    a one-field template is injective on strings (left inverse axiom)."""
     I = _I()
+    pieces = template_pieces(tag) if ':' in tag else None
+    if pieces is not None and terms and len(pieces) == len(terms) + 1 and \
+            (E.merge or all(E.must(Val.is_VStr(t)) for t in terms)):
+        name = 'Tmpl_' + _h(repr(pieces))
+        f = z3.Function(name, *([z3.StringSort()] * len(terms) + [z3.StringSort()]))
+        r = f(*[Val.s(t) for t in terms])
+        if len(terms) == 1:
+            inv = z3.Function(name + '_inv', z3.StringSort(), z3.StringSort())
+            E.axiom(inv(r) == Val.s(terms[0]))
+            E.path.ghost.setdefault('templates', {})[name] = pieces
+        return I.T(Val.VStr(r))
     if not terms:
         return I.C(tag.split(':', 1)[1]) if tag.startswith('pfmt:') and '%' not in tag else \
             I.T(Val.VStr(z3.Function('Str_' + _h(tag), z3.StringSort())()))
-    f = z3.Function('Str_' + _h(tag), *([Val] * len(terms) + [z3.StringSort()]))
+    f = z3.Function('Str_' + _h(tag), *([vals.VS] * len(terms) + [z3.StringSort()]))
     return I.T(Val.VStr(f(*terms)))
 
 
@@ -945,6 +1078,34 @@ def str_concat(E, a, b):
     return f(a, b)
 
 
+def dict_store(E, d, key, v):
+    """functional ``d[key] = v`` on a symbolic dict term"""
+    I = _I()
+    V = Val
+    t = d.t
+    E.fail_if(z3.Not(V.is_VDict(t)), TypeError, 'item assignment on a non-dict')
+    kt = E.lift(key)
+    vt = E.lift(v)
+    E.axiom(vals.key_axiom(kt))
+    kid = vals.KeyId(kt)
+    present = z3.Select(V.dm(t), kid) != V.VAbsent
+    n = V.dn(t)
+    return I.T(V.VDict(z3.If(present, n, n + 1),
+                       z3.If(present, V.dk(t), z3.Store(V.dk(t), n, kt)),
+                       z3.Store(V.dm(t), kid, vt)))
+
+
+def dict_update(E, a, b):
+    """functional ``a.update(b)``: uninterpreted, with the lookup law
+    instantiated on demand (see dict_lookup_axioms)"""
+    I = _I()
+    f = z3.Function('DictUpdate', vals.VS, vals.VS, vals.VS)
+    r = f(a.t, b.t)
+    E.axiom(Val.is_VDict(r))
+    E.path.ghost.setdefault('dictupdates', []).append((r, a.t, b.t))
+    return I.T(r)
+
+
 def list_concat(E, ta, tb):
     I = _I()
     V = Val
@@ -996,7 +1157,7 @@ def install(E):
                        (V.is_VDict, lambda: V.dn(t)), (V.is_VSet, lambda: V.sn(t))):
             if E.must(rec(t)):
                 n = f()
-                E.scoped_assume(n >= 0)
+                E.axiom(z3.Implies(rec(t), n >= 0))
                 return I.T(V.VInt(n))
         ok = z3.Or(V.is_VStr(t), V.is_VBytes(t), V.is_VList(t), V.is_VTuple(t), V.is_VDict(t), V.is_VSet(t))
         E.fail_if(z3.Not(ok), TypeError, 'object has no len()')
@@ -1005,7 +1166,7 @@ def install(E):
             z3.If(V.is_VList(t), V.llen(t),
             z3.If(V.is_VTuple(t), V.tlen(t),
             z3.If(V.is_VDict(t), V.dn(t), V.sn(t))))))
-        E.scoped_assume(n >= 0)
+        E.axiom(z3.Implies(ok, n >= 0))
         return I.T(V.VInt(z3.simplify(n)))
     M[len] = m_len
 
@@ -1017,13 +1178,34 @@ def install(E):
 
     def m_hasattr(E, args, kw):
         obj, name = args
-        if not isinstance(name, I.C):
+        if not isinstance(name, I.C) and not E.merge:
             hook = getattr(E, 'hasattr_symbolic', None)
             if hook is None:
                 raise I.Unsupported('hasattr with symbolic name')
             return hook(obj, name)
-        if isinstance(obj, I.C):
+        if isinstance(obj, I.C) and isinstance(name, I.C):
             return I.C(hasattr(obj.v, name.v))
+        if E.merge:
+            # specification mode: the condition under which the read succeeds
+            old = E.fail_conds
+            mine = []
+            E.fail_conds = mine
+            try:
+                try:
+                    if isinstance(name, I.C):
+                        getattr_(E, obj, name.v)
+                    else:
+                        E.getattr_symbolic_name(obj, name, None)
+                except I.PyRaise as pr:
+                    if issubclass(pr.exc.cls, AttributeError):
+                        return I.C(False)
+                    raise
+            finally:
+                E.fail_conds = old
+            conds = [c for (c, k, _) in mine if issubclass(k, AttributeError)]
+            if not conds:
+                return I.C(True)
+            return E.bool_sv(z3.Not(z3.Or(*conds)))
         # run getattr and observe AttributeError
         try:
             getattr_(E, obj, name.v)
@@ -1123,7 +1305,7 @@ def install(E):
         if isinstance(x, I.T):
             t = x.t
             E.assumptions.add('str()/repr() of closed-world values does not raise')
-            f = z3.Function('PyStr', Val, z3.StringSort())
+            f = z3.Function('PyStr', vals.VS, z3.StringSort())
             return I.T(Val.VStr(z3.If(Val.is_VStr(t), Val.s(t), f(t))))
         E.assumptions.add('str()/repr() of closed-world values does not raise')
         return I.T(Val.VStr(E.path.fresh('str', z3.StringSort())))
@@ -1135,7 +1317,7 @@ def install(E):
             return I.C(repr(x.v))
         E.assumptions.add('str()/repr() of closed-world values does not raise')
         if isinstance(x, I.T):
-            f = z3.Function('PyRepr', Val, z3.StringSort())
+            f = z3.Function('PyRepr', vals.VS, z3.StringSort())
             return I.T(Val.VStr(f(x.t)))
         return I.T(Val.VStr(E.path.fresh('repr', z3.StringSort())))
     M[repr] = m_repr
@@ -1226,7 +1408,7 @@ def install(E):
             q = args[0]
             b = E.truth(q.body)
             b = z3.BoolVal(b) if isinstance(b, bool) else b
-            return E.bool_sv(E.path.quant(z3.Exists([q.i], z3.And(q.i >= 0, q.i < q.n, b))))
+            return E.bool_sv(E.path.quant(z3.Exists([q.i], z3.And(q.i >= 0, q.i < q.n, b)), q.n))
         items = E.iter_items(args[0], None)
         if items is None:
             raise I.Unsupported('any() of symbolic iterable')
@@ -1241,7 +1423,7 @@ def install(E):
             q = args[0]
             b = E.truth(q.body)
             b = z3.BoolVal(b) if isinstance(b, bool) else b
-            return E.bool_sv(E.path.quant(z3.ForAll([q.i], z3.Implies(z3.And(q.i >= 0, q.i < q.n), b))))
+            return E.bool_sv(E.path.quant(z3.ForAll([q.i], z3.Implies(z3.And(q.i >= 0, q.i < q.n), b)), q.n))
         items = E.iter_items(args[0], None)
         if items is None:
             raise I.Unsupported('all() of symbolic iterable')
@@ -1391,10 +1573,7 @@ def call_method(E, recv, name, args, kwargs):
             if isinstance(src, I.SDict):
                 recv.d.update(src.d)
                 return I.C(None)
-            hook2 = getattr(E, 'sdict_update_symbolic', None)
-            if hook2 is not None:
-                return hook2(recv, src)
-            raise I.Unsupported('dict.update with symbolic mapping')
+            raise I.Unsupported('dict.update with symbolic mapping on an aliased local dict')
         if name == 'copy':
             return I.SDict(dict(recv.d))
         raise I.Unsupported('dict method %s' % name)
@@ -1408,12 +1587,12 @@ def call_method(E, recv, name, args, kwargs):
         # compiled-pattern.match(s): opaque, deterministic; never raises on str
         a = E.lift(args[0])
         E.fail_if(z3.Not(z3.Or(V.is_VStr(a), V.is_VBytes(a))), TypeError, 'expected string or bytes-like object')
-        f = z3.Function('ReMatch', Val, Val, Val)
+        f = z3.Function('ReMatch', vals.VS, vals.VS, vals.VS)
         r = f(t, a)
-        E.scoped_assume(z3.Or(V.is_VNone(r), V.is_VOther(r)))
+        E.axiom(z3.Or(V.is_VNone(r), V.is_VOther(r)))
         return I.T(r)
     if name == 'total_seconds' and not args:
-        f = z3.Function('TimedeltaSeconds', Val, vals.FP)
+        f = z3.Function('TimedeltaSeconds', vals.VS, vals.FP)
         return I.T(V.VFloat(f(t)))
     if name in ('startswith', 'endswith'):
         a = E.lift(args[0])
@@ -1436,7 +1615,7 @@ def call_method(E, recv, name, args, kwargs):
         E.assumptions.add('str()/repr() of closed-world values does not raise')
         return opaque_string(E, 'sfmt', [t] + [E.lift(a) if not isinstance(a, (I.SExc, I.SBound, I.SClosure)) else V.VNone for a in args])
     if name == 'utcoffset':
-        f = z3.Function('tz_utcoffset', Val, Val, Val)
+        f = z3.Function('tz_utcoffset', vals.VS, vals.VS, vals.VS)
         return I.T(f(t, E.lift(args[0])))
     if name == 'strftime':
         f = z3.Function('Strftime', z3.IntSort(), z3.StringSort(), z3.StringSort())
